@@ -71,6 +71,10 @@ HEAP_PROGS = [
     ("captured binary plus binary argument", "#{ a = [0xaa, 0xbb] __binary_concat__, b = [0xcc, 0xdd] __binary_concat__, p = b @#'bin { [a, $] }, !p }", "[0xaabb, 0xccdd]"),
     ("scratch binaries dropped by calls", "#{ f = #'int { =n [0x01, 0x02] __binary_concat__ =scratch, n }, [1 f, 2 f, 3 f] }", "[1, 2, 3]"),
     ("result awaited twice", "#{ q = @#{ 1 }, p = @#{ [0xaa, 0xbb] __binary_concat__ }, x = !p, y = !p, [x, y] }", "[0xaabb, 0xaabb]"),
+    ("consequence-less branch yielding a heap binary, then dropped", "#{ { | [0x01, 0x02] __binary_concat__ | 0x03 }, 1 }", "1"),
+    ("binary pinned against itself", "#{ a = [0xaa, 0xbb] __binary_concat__, x = a =&a, [x, a] }", "[Ok, 0xaabb]"),
+    ("tuple holding a binary pinned against itself, then dropped", "#{ t = P[[0xaa, 0xbb] __binary_concat__], t =&t, 1 }", "1"),
+    ("type test on a heap binary, then dropped", "#{ a = [0xaa, 0xbb] __binary_concat__, { | a ='bin => 1 | 2 } }", "1"),
     ("reuse after drop: loop of allocations then a fresh value", "#{ f = #'int { | =0 => [0xde, 0xad] __binary_concat__ | =n => { [0x01, 0x02] __binary_concat__ =scratch, [n, 1] __integer_subtract__ ^ } }, keep = [0xbe, 0xef] __binary_concat__, [keep, 300 f, keep] }", "[0xbeef, 0xdead, 0xbeef]"),
 ]
 
@@ -149,3 +153,20 @@ def search(prop):
     if prop == "C13":
         return check_eq_progs(quiv)
     return check_heap_progs(quiv)
+
+
+_ALL_CACHE = {}
+
+
+def search_all():
+    """Every corpus (heap, equality, tail shapes) once per run: used to decorate a violated VM obligation with a
+    concrete failing program, when there is one."""
+    if "r" not in _ALL_CACHE:
+        quiv = build_quiv()
+        fails = []
+        runs = 0
+        for rep in (check_heap_progs(quiv), check_eq_progs(quiv), check_tail_shapes(quiv)):
+            fails.extend(rep["failures"])
+            runs += rep["runs"]
+        _ALL_CACHE["r"] = {"runs": runs, "failures": fails}
+    return _ALL_CACHE["r"]
